@@ -305,14 +305,9 @@ let bld_step lz call_of (st, cid) (o : string) : (state * int) * string =
      | XKill _ | XKillConnect _ -> poisoned := (cid + 1) :: !poisoned
      | _ -> ());
     if o.[0] = 'A' then abortive := (cid + 1) :: !abortive;
-    let (st', next') = e2e_step lz st (n_of_int (cid + 1)) op in
-    (* service calls of abortive clients that have started end at once: a Finish (an ordinary scenario operation of the Gallina
-       oracle) for each, until none is in progress *)
-    let rec finish_abortive (st, next) =
-      match List.find_opt (fun c -> List.exists (fun wk -> List.exists (fun cn -> int_of_n cn.c_id = c) wk.w_picked) st.ws) !abortive with
-      | Some c -> finish_abortive (e2e_step lz st next (XFinish (n_of_int c)))
-      | None -> (st, next) in
-    let (st', next') = finish_abortive (st', next') in
+    (* Model/SrvE2E.v e2e_step_ab: the operation, settling, restarts, and a Finish for every abortive client's service call that
+       has started *)
+    let (st', next') = e2e_step_ab lz (List.map n_of_int !abortive) st (n_of_int (cid + 1)) op in
     let cid' = int_of_n next' - 1 in
     let evs = take (List.length st'.trace - nev) st'.trace in
     (match op with
